@@ -897,6 +897,26 @@ func ruleNeverGivesUp(w *World, r *Run, rule string) {
 				r.Check(empty && nCalls == 0, rule, key, w.pos(s.RetPos), "first feed (witness has nothing) does not get the empty proof Update's first-use rule expects")
 			}
 		}
+		// a proof builder is tied to the checkpoint it was made for: it must be built in this very call, for this call's 'to'
+		for _, s := range sums {
+			for _, cp := range s.Events {
+				if cp.Kind != "call" || !strings.HasSuffix(cp.Callee, ".ConsistencyProof") {
+					continue
+				}
+				okPB := cp.Recv != nil && cp.Recv.Kind == "call" && strings.HasSuffix(cp.Recv.Name, ".NewProofBuilder") && cp.Recv.Idx == 1
+				if okPB {
+					okPB = false
+					for _, a0 := range cp.Recv.Args[2:] {
+						if a0 == ff.to {
+							okPB = true
+						}
+					}
+				}
+				r.Check(okPB, rule, name+" | proof builder made in this call for the checkpoint being proven", w.pos(cp.Pos), "ConsistencyProof is asked of "+short(fmt.Sprint(cp.Recv))+", not of a proof builder created in this call for 'to' (a builder kept across polls is stale as soon as the log grows)")
+				good := len(cp.Args) >= 3 && cp.Args[1] == mk("field", "Size", 0, tUint64, ff.from) && cp.Args[2] == mk("field", "Size", 0, tUint64, ff.to)
+				r.Check(good, rule, name+" | ConsistencyProof(from.Size, to.Size)", w.pos(cp.Pos), "ConsistencyProof called with "+short(fmt.Sprint(cp.Args)))
+			}
+		}
 		if !found {
 			r.Fail(rule, key, w.pos(fpCl.Pos()), "fetchProof has no from.Size == 0 arm: the first submission would carry a non-empty proof or fail")
 		}
